@@ -488,7 +488,13 @@ class Ctx:
         allowed = set(allow_axioms) | STD_AXIOM_ALLOW
         ax_all = sorted({a for v in res.values() for a in v})
         bad_ax = [a for a in ax_all if a not in allowed and a.split(".")[-1] not in allowed]
-        hyg = coq_hygiene()
+        hyg_all = coq_hygiene()
+        # the verdict looks at the files this property's theorems depend on; problems elsewhere in the tree are
+        # reported in the evidence (the development as a whole must be clean, but another check's file must not
+        # take this one down)
+        mine = set(os.path.join("coq", "theories", v) for v in vfiles)
+        hyg = [h for h in hyg_all if h.split(":")[0] in mine or h.startswith("_CoqProject")]
+        cov["hygiene_elsewhere"] = [h for h in hyg_all if h not in hyg][:10]
         if bad_ax:
             self.broken.append(("proof", "unexpected axioms: %s" % bad_ax))
         if hyg:
